@@ -262,8 +262,6 @@ Section Keys.
   Hypothesis table_ok : ~ In key_sep table.
   (* every stored key was written as "table:key" (the write path refuses anything else) ... *)
   Hypothesis keys_have_table : Forall (fun raw => extract_table raw <> None) (rawkeys d db).
-  (* ... with a non-empty key name (the property's quantifier) *)
-  Hypothesis no_empty_name : ~ In (type_prefix d ++ wrap_cursor table []) db.
   Hypothesis pat_ok : matcher compile pat = Some m.
   Hypothesis count_pos : (1 <= count)%Z.
 
@@ -325,11 +323,49 @@ Section Keys.
     unfold rk_of. now rewrite extract_table_wrap.
   Qed.
 
-  Lemma rk_nonempty x : In x (rawkeys d db) -> inT x = true -> rk_of x <> [].
+  (* no key of the table has the empty name *)
+  Definition no_empty_name : Prop := ~ In (type_prefix d ++ wrap_cursor table []) db.
+
+  Lemma rk_nonempty : no_empty_name -> forall x, In x (rawkeys d db) -> inT x = true -> rk_of x <> [].
   Proof.
-    intros Hx H. apply (same_table_iff table x table_ok) in H. destruct H as [r ->].
+    intros Hno x Hx H. apply (same_table_iff table x table_ok) in H. destruct H as [r ->].
     unfold rk_of. rewrite extract_table_wrap by exact table_ok. intros ->.
-    apply names_in in Hx. destruct Hx as [_ Hx]. exact (no_empty_name Hx).
+    apply names_in in Hx. destruct Hx as [_ Hx]. exact (Hno Hx).
+  Qed.
+
+  Lemma empty_rk_is_table_start x : inT x = true -> rk_of x = [] -> x = wrap_cursor table [].
+  Proof.
+    intros H E. apply (same_table_iff table x table_ok) in H. destruct H as [r ->].
+    unfold rk_of in E. rewrite extract_table_wrap in E by exact table_ok. now subst.
+  Qed.
+
+  (* forwards the key "table:" is never beyond a cursor of the table *)
+  Lemma rk_empty_last_fwd c x :
+    In x (stream ltf m (rawkeys d db) (wrap_cursor table c)) -> inT x = true -> rk_of x = [] ->
+    filter inT (stream ltf m (rawkeys d db) x) = [].
+  Proof.
+    intros Hx HT E. exfalso. rewrite (empty_rk_is_table_start x HT E) in Hx.
+    unfold stream in Hx. apply filter_In in Hx. destruct Hx as [Hx _]. apply filter_In in Hx.
+    destruct Hx as [_ Hlt]. unfold ltf, wrap_cursor in Hlt.
+    replace (table ++ key_sep :: c) with ((table ++ [key_sep]) ++ c) in Hlt by now rewrite <- app_assoc.
+    replace (table ++ [key_sep]) with ((table ++ [key_sep]) ++ []) in Hlt at 2 by apply app_nil_r.
+    rewrite ltb_app, ltb_nil_r in Hlt. discriminate.
+  Qed.
+
+  (* backwards it is the last key of the table *)
+  Lemma rk_empty_last_rev c x :
+    In x (stream ltr m (rev (rawkeys d db)) (wrap_cursor table c)) -> inT x = true -> rk_of x = [] ->
+    filter inT (stream ltr m (rev (rawkeys d db)) x) = [].
+  Proof.
+    intros _ HT E. rewrite (empty_rk_is_table_start x HT E).
+    apply filter_none. apply Forall_forall. intros y Hy.
+    unfold stream in Hy. apply filter_In in Hy. destruct Hy as [Hy _]. apply filter_In in Hy. destruct Hy as [_ Hlt].
+    destruct (inT y) eqn:Ey; [|reflexivity]. exfalso.
+    apply (same_table_iff table y table_ok) in Ey. destruct Ey as [r ->].
+    unfold ltr, wrap_cursor in Hlt.
+    replace (table ++ key_sep :: r) with ((table ++ [key_sep]) ++ r) in Hlt by now rewrite <- app_assoc.
+    replace (table ++ [key_sep]) with ((table ++ [key_sep]) ++ []) in Hlt at 2 by apply app_nil_r.
+    rewrite ltb_app, ltb_nil_r in Hlt. discriminate.
   Qed.
 
   Lemma wrap_split c : wrap_cursor table c = (table ++ [key_sep]) ++ c.
@@ -401,16 +437,18 @@ Section Keys.
     exists pages,
       iterate_keys compile fuel db d false table start pat count = (pages, Done) /\
       concat (map fst pages) = R /\
-      length pages = (length R / n + 1)%nat.
+      (length pages <= length R / n + 1)%nat /\
+      (no_empty_name -> length pages = (length R / n + 1)%nat).
   Proof.
     intros R Hfuel. unfold iterate_keys.
     assert (R = filter inT (stream ltf m (rawkeys d db) (wrap_cursor table start))) as HR.
     { unfold R, stream, inT, ltf. apply filter_comm3. }
     rewrite HR in *.
-    apply (iterate_cut ltf ltf_irrefl ltf_trans (fun _ => Err) m (rawkeys d db) rawkeys_sorted n
-             (eff_count_pos count count_pos) inT rk_of (wrap_cursor table) wrap_rk rk_nonempty down_closed_fwd
-             (fun c => key_scan_command compile db d false (wrap_cursor table c) pat count) key_call_fwd).
-    exact Hfuel.
+    destruct (iterate_cut ltf ltf_irrefl ltf_trans (fun _ => Err) m (rawkeys d db) rawkeys_sorted n
+             (eff_count_pos count count_pos) inT rk_of (wrap_cursor table) wrap_rk rk_empty_last_fwd down_closed_fwd
+             (fun c => key_scan_command compile db d false (wrap_cursor table c) pat count) key_call_fwd
+             fuel start Hfuel) as [pages [H1 [H2 [H3 H4]]]].
+    exists pages. repeat split; auto. intro Hno. apply H4. exact (rk_nonempty Hno).
   Qed.
 
   Theorem key_scan_rev start fuel :
@@ -420,18 +458,19 @@ Section Keys.
     exists pages,
       iterate_keys compile fuel db d true table start pat count = (pages, Done) /\
       concat (map fst pages) = R /\
-      length pages = (length R / n + 1)%nat.
+      (length pages <= length R / n + 1)%nat /\
+      (no_empty_name -> length pages = (length R / n + 1)%nat).
   Proof.
     intros R Hfuel. unfold iterate_keys.
     assert (R = filter inT (stream ltr m (rev (rawkeys d db)) (wrap_cursor table start))) as HR.
     { unfold R, stream, inT, ltr. apply filter_comm3. }
     rewrite HR in *.
-    assert (forall x, In x (rev (rawkeys d db)) -> inT x = true -> rk_of x <> []) as Hrk.
-    { intros x Hx. apply in_rev in Hx. now apply rk_nonempty. }
-    apply (iterate_cut ltr ltr_irrefl ltr_trans (fun _ => Err) m (rev (rawkeys d db)) rawkeys_rev_sorted n
-             (eff_count_pos count count_pos) inT rk_of (wrap_cursor table) wrap_rk Hrk down_closed_rev
-             (fun c => key_scan_command compile db d true (wrap_cursor table c) pat count) key_call_rev).
-    exact Hfuel.
+    destruct (iterate_cut ltr ltr_irrefl ltr_trans (fun _ => Err) m (rev (rawkeys d db)) rawkeys_rev_sorted n
+             (eff_count_pos count count_pos) inT rk_of (wrap_cursor table) wrap_rk rk_empty_last_rev down_closed_rev
+             (fun c => key_scan_command compile db d true (wrap_cursor table c) pat count) key_call_rev
+             fuel start Hfuel) as [pages [H1 [H2 [H3 H4]]]].
+    exists pages. repeat split; auto. intro Hno. apply H4.
+    intros x Hx. apply in_rev in Hx. now apply (rk_nonempty Hno).
   Qed.
 End Keys.
 
@@ -633,8 +672,6 @@ Section Keys0.
   Hypothesis table_ok : ~ In key_sep table.
   (* every stored key was written as "table:key" (the write path refuses anything else) ... *)
   Hypothesis keys_have_table : Forall (fun raw => extract_table raw <> None) (rawkeys d db).
-  (* ... with a non-empty key name (the property's quantifier) *)
-  Hypothesis no_empty_name : ~ In (type_prefix d ++ wrap_cursor table []) db.
   Hypothesis pat_ok : matcher compile pat = Some m.
   Hypothesis count_nonpos : (count <= 0)%Z.
 
@@ -696,11 +733,49 @@ Section Keys0.
     unfold rk_of. now rewrite extract_table_wrap.
   Qed.
 
-  Lemma rk_nonempty0 x : In x (rawkeys d db) -> inT x = true -> rk_of x <> [].
+  (* no key of the table has the empty name *)
+  Definition no_empty_name0 : Prop := ~ In (type_prefix d ++ wrap_cursor table []) db.
+
+  Lemma rk_nonempty0 : no_empty_name0 -> forall x, In x (rawkeys d db) -> inT x = true -> rk_of x <> [].
   Proof.
-    intros Hx H. apply (same_table_iff table x table_ok) in H. destruct H as [r ->].
+    intros Hno x Hx H. apply (same_table_iff table x table_ok) in H. destruct H as [r ->].
     unfold rk_of. rewrite extract_table_wrap by exact table_ok. intros ->.
-    apply names_in in Hx. destruct Hx as [_ Hx]. exact (no_empty_name Hx).
+    apply names_in in Hx. destruct Hx as [_ Hx]. exact (Hno Hx).
+  Qed.
+
+  Lemma empty_rk_is_table_start0 x : inT x = true -> rk_of x = [] -> x = wrap_cursor table [].
+  Proof.
+    intros H E. apply (same_table_iff table x table_ok) in H. destruct H as [r ->].
+    unfold rk_of in E. rewrite extract_table_wrap in E by exact table_ok. now subst.
+  Qed.
+
+  (* forwards the key "table:" is never beyond a cursor of the table *)
+  Lemma rk_empty_last_fwd0 c x :
+    In x (stream ltf m (rawkeys d db) (wrap_cursor table c)) -> inT x = true -> rk_of x = [] ->
+    filter inT (stream ltf m (rawkeys d db) x) = [].
+  Proof.
+    intros Hx HT E. exfalso. rewrite (empty_rk_is_table_start0 x HT E) in Hx.
+    unfold stream in Hx. apply filter_In in Hx. destruct Hx as [Hx _]. apply filter_In in Hx.
+    destruct Hx as [_ Hlt]. unfold ltf, wrap_cursor in Hlt.
+    replace (table ++ key_sep :: c) with ((table ++ [key_sep]) ++ c) in Hlt by now rewrite <- app_assoc.
+    replace (table ++ [key_sep]) with ((table ++ [key_sep]) ++ []) in Hlt at 2 by apply app_nil_r.
+    rewrite ltb_app, ltb_nil_r in Hlt. discriminate.
+  Qed.
+
+  (* backwards it is the last key of the table *)
+  Lemma rk_empty_last_rev0 c x :
+    In x (stream ltr m (rev (rawkeys d db)) (wrap_cursor table c)) -> inT x = true -> rk_of x = [] ->
+    filter inT (stream ltr m (rev (rawkeys d db)) x) = [].
+  Proof.
+    intros _ HT E. rewrite (empty_rk_is_table_start0 x HT E).
+    apply filter_none. apply Forall_forall. intros y Hy.
+    unfold stream in Hy. apply filter_In in Hy. destruct Hy as [Hy _]. apply filter_In in Hy. destruct Hy as [_ Hlt].
+    destruct (inT y) eqn:Ey; [|reflexivity]. exfalso.
+    apply (same_table_iff table y table_ok) in Ey. destruct Ey as [r ->].
+    unfold ltr, wrap_cursor in Hlt.
+    replace (table ++ key_sep :: r) with ((table ++ [key_sep]) ++ r) in Hlt by now rewrite <- app_assoc.
+    replace (table ++ [key_sep]) with ((table ++ [key_sep]) ++ []) in Hlt at 2 by apply app_nil_r.
+    rewrite ltb_app, ltb_nil_r in Hlt. discriminate.
   Qed.
 
   Lemma wrap_split0 c : wrap_cursor table c = (table ++ [key_sep]) ++ c.
@@ -779,7 +854,7 @@ Section Keys0.
     { unfold R, stream, inT, ltf. apply filter_comm30. }
     rewrite HR in *.
     apply (iterate_cut0 ltf ltf_irrefl ltf_trans (fun _ => Err) m (rawkeys d db) rawkeys_sorted0 n
-             n0_pos inT rk_of (wrap_cursor table) wrap_rk0 rk_nonempty0 down_closed_fwd0
+             n0_pos inT rk_of (wrap_cursor table) wrap_rk0 rk_empty_last_fwd0 down_closed_fwd0
              (fun c => key_scan_command compile db d false (wrap_cursor table c) pat count) key_call_fwd0).
     exact Hfuel.
   Qed.
@@ -797,10 +872,8 @@ Section Keys0.
     assert (R = filter inT (stream ltr m (rev (rawkeys d db)) (wrap_cursor table start))) as HR.
     { unfold R, stream, inT, ltr. apply filter_comm30. }
     rewrite HR in *.
-    assert (forall x, In x (rev (rawkeys d db)) -> inT x = true -> rk_of x <> []) as Hrk.
-    { intros x Hx. apply in_rev in Hx. now apply rk_nonempty0. }
     apply (iterate_cut0 ltr ltr_irrefl ltr_trans (fun _ => Err) m (rev (rawkeys d db)) rawkeys_rev_sorted0 n
-             n0_pos inT rk_of (wrap_cursor table) wrap_rk0 Hrk down_closed_rev0
+             n0_pos inT rk_of (wrap_cursor table) wrap_rk0 rk_empty_last_rev0 down_closed_rev0
              (fun c => key_scan_command compile db d true (wrap_cursor table c) pat count) key_call_rev0).
     exact Hfuel.
   Qed.
